@@ -12,7 +12,7 @@ else
 fi
 cd /verif
 for p in "$@"; do
-  out=$(PV_REPO=$wt ./pv check $p 2>&1 | grep -E '^(OK|VIOLATION|UNDECIDED|KNOWN)|obligation|lost anchor|not supported|error' | head -8)
+  out=$(PV_REPO=$wt ./pv check $p 2>&1 | grep -E '^(OK|VIOLATION|UNDECIDED|KNOWN)|obligation|lost anchor' | head -8)
   echo "--- $p: $out"
 done
 git -C /repo worktree remove --force $wt
